@@ -16,7 +16,7 @@ CHECKS = {
   note="Exhaustive for series over 4 values up to length 4 (quick) / 5 values up to length 6 (thorough) at three power-of-two scalings, experiments up to 2x2 (quick) / 3x2 (thorough) trials x generations. Floating-point tolerance 1e-12 only where a division is involved. Trusted: TLC, the replayer's construction of experiment records.",
   technique=B2, ref="DESIGN.md 7/C19"),
  "C20": dict(
-  text="Experiment.Execute is specified as a step machine (one action per step visible to evaluator, observer or caller); the protocol clauses of C20 are invariants over its logs, checked by TLC for every script of outcomes (ok / solved / evaluator error / context cancelled while evaluating, with and without solved) in scope with and without an observer; every behaviour is replayed through the real Execute with a scripted evaluator and a recording observer under both epoch executors and compared log for log.",
+  text="Experiment.Execute is specified as a step machine (one action per step visible to evaluator, observer or caller); the protocol clauses of C20 are invariants over its logs, checked by TLC for every script of outcomes (ok / solved / evaluator error / context cancelled while evaluating, with and without solved) in scope with and without an observer, and additionally for every single observer notification (trial started, generation evaluated, trial finished) during which the observer cancels the context; every behaviour is replayed through the real Execute with a scripted evaluator and a recording observer under both epoch executors and compared log for log.",
   note="Exhaustive for 2x2, 1x3, 3x1, 2x0 (quick) plus 2x3 (thorough) trials x generations. Population freshness and turnover are observed through pointer identity of populations and organisms. Trusted: TLC, the scripted evaluator/observer.",
   technique=B2, ref="DESIGN.md 7/C20"),
 }
@@ -120,7 +120,8 @@ def c19(ctx, replay):
 def c20(ctx, replay):
     thorough = ctx.tier == "thorough"
     ctx.rule = ("behaviours of MC_Experiment: every script over {ok, solved, fail, cancel-while-evaluating, "
-                "cancel-and-solved} for the configured runs x generations, with and without an observer; each is run "
+                "cancel-and-solved} for the configured runs x generations, with and without an observer, crossed with every single "
+                "observer notification during which the observer cancels the context (or none); each is run "
                 "through the real Experiment.Execute (sequential and parallel epoch executor, population of 8) with a "
                 "scripted evaluator and a recording observer and compared with the specification's evaluator log, "
                 "observer log, recorded trials, final population states and returned error; non-trivial = script that "
